@@ -186,7 +186,7 @@ READERS = ["idx v1", "idx v2", "pack(idx v2 damaged)", "index v2", "index v3", "
            "packed-refs(peeled)", "loose commit", "loose tree"]
 
 TARGETS = {"pack_struct": dict(fn=pack_struct, seeds=_pack_seeds, max_len=6000,
-                               imports=["dulwich.object_store", "dulwich.pack", "dulwich.objects"], warmup=_env)}
+                               imports=["dulwich.object_store", "dulwich.pack", "dulwich.objects"], warmup=_env, reset=_state.clear)}
 for _r in READERS:
     TARGETS["reader:" + _r] = dict(fn=_reader_target(_r), seeds=_reader_seeds(_r), max_len=3000,
-                                   imports=["dulwich.pack", "dulwich.index", "dulwich.commit_graph", "dulwich.midx", "dulwich.refs", "dulwich.objects"], warmup=_env)
+                                   imports=["dulwich.pack", "dulwich.index", "dulwich.commit_graph", "dulwich.midx", "dulwich.refs", "dulwich.objects"], warmup=_env, reset=_state.clear)
